@@ -1,5 +1,62 @@
+import Agd.Model.ConnLimit
 import Agd.Driver.Util
-/-! Line-protocol driver for the C18 model (stub: not built yet). -/
+/-! Line-protocol driver for the C18 model. -/
 namespace Agd.Driver.C18
-def main : IO Unit := Agd.Driver.loop (fun (s : Unit) _ => (s, "bad-op")) ()
+open Agd.ConnLimit Agd.Driver
+
+structure S where
+  v : Variant := repaired
+  st : St := init 1 1
+  ctr : Counter := { current := 0, stop := 1, resume := 1, accepting := true }
+  pipe : Pipe := Pipe.init 1
+
+def showOut : Out → String
+  | .pending => "pending" | .wait => "wait" | .closed => "closed" | .conn k => s!"conn {k}"
+  | .ok => "ok" | .errClosed => "errclosed" | .none => "none"
+
+def showCtr (c : Counter) : String := s!"{c.current} {showB c.accepting}"
+
+def showPipe (p : Pipe) : String := s!"{p.inflight} {showB p.blocked} {p.queued}"
+
+def showListeners (s : St) (n : Nat) : String :=
+  " ".intercalate ((List.range n).map fun l =>
+    s!"L{l}:w={s.waitq.count l},k={s.woken.count l},p={s.pending.count l},c={showB (decide (l ∈ s.closed))}")
+
+def showState (s : St) (n : Nat) : String :=
+  s!"cur={s.c.current} acc={showB s.c.accepting} open={s.open_.length} " ++ showListeners s n
+
+def doOp (s : S) (op : Op) : S × String :=
+  let r := step s.v s.st op
+  ({ s with st := r.1 }, showOut r.2)
+
+def step (s : S) : List String → S × String
+  | ["new", w, cf, stop, resume] =>
+    if nat! stop = 0 ∨ nat! resume > nat! stop then (s, "bad-config")
+    else
+      ({ s with v := { wake := if w == "s" then .signal else .broadcast, closedFirst := bool! cf },
+                st := init (nat! stop) (nat! resume) }, "ok")
+  | ["accept", l] => doOp s (.accept (nat! l))
+  | ["recheck", l] => doOp s (.recheck (nat! l))
+  | ["deliver", l] => doOp s (.deliver (nat! l))
+  | ["fail", l] => doOp s (.fail (nat! l))
+  | ["close", k] => doOp s (.close (nat! k))
+  | ["lclose", l] => doOp s (.lclose (nat! l))
+  | ["state", n] => (s, showState s.st (nat! n))
+  | ["ctr", cur, stop, resume, acc] =>
+    let c : Counter := { current := nat! cur, stop := nat! stop, resume := nat! resume,
+                         accepting := bool! acc }
+    ({ s with ctr := c }, showCtr c)
+  | ["inc"] =>
+    let r := s.ctr.increment
+    ({ s with ctr := r.1 }, s!"{showB r.2} {showCtr r.1}")
+  | ["dec"] =>
+    let c := s.ctr.decrement
+    ({ s with ctr := c }, showCtr c)
+  | ["pipe", n] => ({ s with pipe := Pipe.init (nat! n) }, showPipe (Pipe.init (nat! n)))
+  | ["q"] => let p := s.pipe.step .query; ({ s with pipe := p }, showPipe p)
+  | ["done"] => let p := s.pipe.step .done; ({ s with pipe := p }, showPipe p)
+  | _ => (s, "bad-op")
+
+def main : IO Unit := loop step {}
+
 end Agd.Driver.C18
